@@ -118,6 +118,24 @@ let split_case (rest : string) : string =
       String.concat " " (("order=" ^ order) :: ans)
   | _ -> failwith "bad S case"
 
+(* D <data_pos>:<data_len>:<fidx>,... | <pos> ...     the extent walk of sadump_read_page
+   output: <pos>=<fidx>@<filepos> | <pos>=nodata | <pos>=ub<why> *)
+let parse_extents (s : string) : DiskSetModel.extent list =
+  Stdlib.List.map (fun t -> match split_on ':' t with
+    | [a; b; c] -> { DiskSetModel.x_pos = z_of_hex a; x_len = z_of_hex b; x_fidx = n_of_hex c; x_seen = true }
+    | _ -> failwith "bad extent") (Stdlib.List.filter (fun x -> x <> "") (split_on ',' s))
+
+let diskset_case (rest : string) : string =
+  match Stdlib.List.map String.trim (split_on '|' rest) with
+  | [exts; probes] ->
+      let el = parse_extents exts in
+      String.concat " " (Stdlib.List.map (fun p ->
+        p ^ "=" ^ (match DiskSetModel.walk el (z_of_hex p) with
+                   | DiskSetModel.WAt (f, fp) -> hex_of_n f ^ "@" ^ hex_of_z fp
+                   | DiskSetModel.WNoData -> "nodata"
+                   | DiskSetModel.WUB why -> "ub" ^ string_of_int (int_of_n why))) (words probes))
+  | _ -> failwith "bad D case"
+
 let run_case (line : string) : string =
   let n = String.length line in
   if n < 2 then failwith "empty case" else
@@ -125,6 +143,7 @@ let run_case (line : string) : string =
   match line.[0] with
   | 'F' -> flat_case rest
   | 'S' -> split_case rest
+  | 'D' -> diskset_case rest
   | _ -> failwith "bad case kind"
 
 (* Spec judge.
@@ -166,6 +185,20 @@ let spec_case (line : string) : string =
             let want = match SplitSpec.spec_owner fl (n_of_hex p) with
               | None -> "-" | Some m -> hex_of_n m.SplitModel.fidx in
             if want = a then None else Some ("pfn " ^ p ^ " served from " ^ a ^ " expected " ^ want)
+        | _ -> failwith "bad answer") (words answers) in
+      (match bad with [] -> "ok" | b :: _ -> b)
+  | 'D', [exts; answers] ->
+      (* the implementation's answers against [loc_spec] on the extent lengths *)
+      let el = parse_extents exts in
+      let lens = Stdlib.List.map (fun e -> e.DiskSetModel.x_len) el in
+      let bad = Stdlib.List.filter_map (fun t -> match split_on '=' t with
+        | [p; a] ->
+            let want = match DiskSetSpec.loc_spec lens (z_of_hex p) with
+              | None -> "nodata"
+              | Some (k, off) ->
+                  let e = Stdlib.List.nth el (int_of_nat k) in
+                  hex_of_n e.DiskSetModel.x_fidx ^ "@" ^ hex_of_z (BinInt.Z.add off e.DiskSetModel.x_pos) in
+            if want = a then None else Some ("set position " ^ p ^ " resolved to " ^ a ^ " expected " ^ want)
         | _ -> failwith "bad answer") (words answers) in
       (match bad with [] -> "ok" | b :: _ -> b)
   | _ -> failwith "bad spec line"
